@@ -7,7 +7,7 @@
    used/released when held, nothing but use/release/late completion after
    shutdown, no replacement or shutdown of the served backend while a timed-out
    reload is still inside DBI.Reload).  The number of readers is unbounded. *)
-From DnsV Require Import Base.Bytes Spec.Handles Model.Refcount Proofs.Refcount.
+From DnsV Require Import Base.Bytes Spec.Handles Model.Refcount Proofs.Refcount Model.ReloadLock Proofs.ReloadLock.
 Open Scope N_scope.
 
 (* never touched after close *)
@@ -77,3 +77,89 @@ Proof.
   exact (fun l sn => conj (no_use_after_closeb_iff l) (conj (no_double_closeb_iff l) (handles_okb_iff sn))).
 Qed.
 Print Assumptions C06_checkers_exact.
+
+(* ------------------------------------------------------------------------------------------
+   Why a server reload may be treated as ONE step of the history model above.
+   Model/ReloadLock.v is a small-step interleaving model: reader threads (RLock, NewReader,
+   RUnlock, ForEach..., FreeContext, locked refCount--), reload threads (Lock, DBI.Reload
+   called, returned, ValidateDbKey, newDB.Destroy / f.Destroy, swap, Unlock) and shutdown
+   threads (Lock, Destroy, Unlock) over the SAME shared state plus reloadMu as a
+   reader/writer lock.  The theorems quantify over every list of thread programs without
+   timeouts and EVERY schedule (a disabled step is a no-op). *)
+
+(* no call on a closed backend and no second Close, for every interleaving of the sub-steps *)
+Theorem C06_smallstep_safe : forall specs sched, no_timeouts specs = true ->
+  let ss := srun sched (sinit specs false) in
+  no_use_after_close (log (sh ss)) /\ no_double_close (log (sh ss)).
+Proof. exact smallstep_safe. Qed.
+Print Assumptions C06_smallstep_safe.
+
+(* in every state in which reloadMu is not write-held the shared state satisfies the
+   invariant Inv of the atomic model, so served and pinned backends are open and all others
+   closed exactly once *)
+Theorem C06_smallstep_lockfree_atomic : forall specs sched, no_timeouts specs = true ->
+  let ss := srun sched (sinit specs false) in
+  lk_w ss = None -> Inv (sh ss) /\ handles_ok (snap (sh ss)).
+Proof. exact smallstep_lockfree_atomic. Qed.
+Print Assumptions C06_smallstep_lockfree_atomic.
+
+(* no leak after every schedule: write lock free (in particular: all threads finished, see
+   C06_smallstep_quiet_unlocked) and no reader held *)
+Theorem C06_smallstep_no_leak : forall specs sched, no_timeouts specs = true ->
+  let ss := srun sched (sinit specs false) in
+  lk_w ss = None -> readers (sh ss) = [] ->
+  forall b, openedb (log (sh ss)) b = true ->
+    (shut (sh ss) = true \/ b <> w_bk (ws (sh ss) (served (sh ss)))) -> closes (log (sh ss)) b = 1.
+Proof. exact smallstep_no_leak. Qed.
+Print Assumptions C06_smallstep_no_leak.
+
+Theorem C06_smallstep_quiet_unlocked : forall specs sched, no_timeouts specs = true ->
+  let ss := srun sched (sinit specs false) in quiet ss -> lk_w ss = None.
+Proof. exact smallstep_quiet_unlocked. Qed.
+Print Assumptions C06_smallstep_quiet_unlocked.
+
+(* PARTIAL with respect to the intended refinement.  Proved: mutual exclusion - between the
+   Lock and the Unlock of a reload (or shutdown) no other thread is inside Reload, Close or
+   AcquireReader, so the only foreign steps between a reload's sub-steps are use / release
+   of readers that already hold a pin - and, with the three theorems above, that every such
+   interleaving is safe and ends in states satisfying the atomic model's invariant.
+   MISSING: the trace refinement itself (for every schedule a permutation of the operations,
+   consistent with each thread's program order, whose ATOMIC run from Model/Refcount has the
+   same final state and the same per-backend event sequences up to commuting independent
+   events).  The mover argument would need an extensional equivalence on states (the wrapper
+   and backend maps are functions) and commutation lemmas for release against every reload
+   sub-step; it was not done. *)
+Theorem C06_reload_is_atomic_under_lock_partial : forall specs sched, no_timeouts specs = true ->
+  let ss := srun sched (sinit specs false) in
+  forall t, lk_w ss = Some t ->
+    wsec (ths ss t) = true /\ (forall t', t' <> t -> wsec (ths ss t') = false) /\
+    (forall t', rsec (ths ss t') = false) /\ lk_r ss = [].
+Proof. exact smallstep_mutex. Qed.
+Print Assumptions C06_reload_is_atomic_under_lock_partial.
+
+(* the model is not vacuous: an acquisition attempted during a reload is refused twice,
+   then served by the new backend; everything is closed exactly once in the end *)
+Theorem C06_smallstep_blocked_acquire_example :
+  sstep 1 (srun [0; 0]%nat (sinit ex_specs false)) = None /\
+  sstep 1 (srun [0; 0; 1; 0; 0]%nat (sinit ex_specs false)) = None /\
+  pinned (sh (srun [0; 0; 1; 0; 0; 1; 0; 0; 0; 1; 1]%nat (sinit ex_specs false))) = [1%nat] /\
+  (let ss := srun ex_sched (sinit ex_specs false) in
+   quiet ss /\ closes (log (sh ss)) 0 = 1 /\ closes (log (sh ss)) 1 = 0 /\ readers (sh ss) = []).
+Proof. exact smallstep_blocked_acquire_example. Qed.
+Print Assumptions C06_smallstep_blocked_acquire_example.
+
+(* it is the write lock that does it: with the lock taken only around the swap (seeded change
+   c06f) a reader gets in between f.Destroy() and the swap - use after close and double close *)
+Theorem C06_smallstep_late_lock_refuted :
+  exists specs sched, no_timeouts specs = true /\
+    let ss := srun sched (sinit specs true) in
+    ~ no_use_after_close (log (sh ss)) /\ ~ no_double_close (log (sh ss)).
+Proof. exact smallstep_late_lock_refuted. Qed.
+Print Assumptions C06_smallstep_late_lock_refuted.
+
+(* F28 in the small-step model: the abandoned goroutine of a timed-out reload is a reload
+   sub-step that runs without reloadMu; a later reload closes the backend it is still using *)
+Theorem C06_smallstep_f28_refuted :
+  exists specs sched, ~ no_use_after_close (log (sh (srun sched (sinit specs false)))).
+Proof. exact smallstep_f28_refuted. Qed.
+Print Assumptions C06_smallstep_f28_refuted.
